@@ -29,4 +29,11 @@ VARIANTS = [
     V("C09-n02-factor-order", "neutral", "                            weights[i] += 0.5*(grid_1D[i + 1] - grid_1D[i])", "                            weights[i] += (grid_1D[i + 1] - grid_1D[i]) * 0.5"),
     V("C09-n03-keyword-call", "neutral", "        return GlobalTrapezoidalGrid.compute_weights(grid_1D, a, b, self.modified_basis)",
       "        mb = self.modified_basis\n        return GlobalTrapezoidalGrid.compute_weights(grid_1D, a, b, mb)", nth=0),
+    # D8: the Gauss rule for the moments is exact for every degree of the loop
+    V("C09-b20-moment-rule-one-point-short", "break", "            coordsD, weightsD = legendre.leggauss(int((d+2)/2))\n",
+      "            coordsD, weightsD = legendre.leggauss(int((d+1)/2))\n", "C09.D8"),
+    V("C09-n20-moment-rule-floor-division", "neutral", "            coordsD, weightsD = legendre.leggauss(int((d+2)/2))\n",
+      "            coordsD, weightsD = legendre.leggauss(d // 2 + 1)\n"),
+    V("C09-n21-moment-rule-generous", "neutral", "            coordsD, weightsD = legendre.leggauss(int((d+2)/2))\n",
+      "            coordsD, weightsD = legendre.leggauss(d + 1)\n"),
 ]
